@@ -153,6 +153,21 @@ pub fn check_case(c: &Case, rep: &mut Report) {
                 }
             }
             pos = fend;
+            // the item succeeded: whatever look-ahead failed underneath, the reader must now stand
+            // right after it (a position beyond the data, or short of it, loses or repeats the tail)
+            if c.cut_bytes.is_none() {
+                if let Some(p) = h.r.bit_pos() {
+                    rep.eval(1);
+                    if p != Ok(pos as u64) {
+                        rep.violation(
+                            &format!("{}|{}|position-after-item", sigbase, item_name(op)),
+                            || format!("item #{} {} ending at bit {} of {} data bits decoded correctly but the reader then reports position {:?}", i, op.to_string(), pos, cut_bits, p),
+                            kvf,
+                        );
+                        return;
+                    }
+                }
+            }
             continue;
         }
         // the item needs a bit at or beyond the cut
